@@ -132,6 +132,45 @@ def _shard_entry(args):
     return ctx.result()
 
 
+def _shard_proc(a, q):
+    try:
+        q.put((a[4], _shard_entry(a)))
+    except BaseException:
+        q.put((a[4], dict(evaluations=0, nontrivial=[], classes={}, samples=[], known_seen={}, excluded={},
+                          inconclusive={"shard-crashed": 1}, failures=[], extra={"exceptions": [traceback.format_exc()[-3000:]]})))
+
+
+def _run_shards(args):
+    """one process per shard; a shard process that dies without delivering a result (killed, out of memory) is reported as
+    inconclusive instead of hanging the run (multiprocessing.Pool waits for ever in that case)"""
+    import queue
+    mp = multiprocessing.get_context("fork")
+    q = mp.Queue()
+    procs = {a[4]: mp.Process(target=_shard_proc, args=(a, q)) for a in args}
+    for p in procs.values():
+        p.start()
+    results, pending, dead_since = {}, set(procs), {}
+    while pending:
+        try:
+            shard, res = q.get(timeout=1.0)
+            results[shard] = res
+            pending.discard(shard)
+            continue
+        except queue.Empty:
+            pass
+        now = time.time()
+        for sh in list(pending):
+            if not procs[sh].is_alive():
+                dead_since.setdefault(sh, now)
+                if now - dead_since[sh] > 5:          # its result, if any, would have arrived by now
+                    results[sh] = dict(evaluations=0, nontrivial=[], classes={}, samples=[], known_seen={}, excluded={},
+                                       inconclusive={"shard-died:exit=%s" % procs[sh].exitcode: 1}, failures=[], extra={})
+                    pending.discard(sh)
+    for p in procs.values():
+        p.join(timeout=10)
+    return [results[a[4]] for a in args]
+
+
 def load_known(prop):
     p = os.path.join(VERIF, "known_findings.json")
     if not os.path.exists(p):
@@ -232,8 +271,7 @@ def main(argv):
     if nshards == 1:
         results = [_shard_entry(args[0])]
     else:
-        with multiprocessing.get_context("fork").Pool(nshards) as pool:
-            results = pool.map(_shard_entry, args, chunksize=1)
+        results = _run_shards(args)
     merged = dict(evaluations=0, nontrivial=set(), classes=Counter(), samples=[], known_seen=Counter(), excluded=Counter(),
                   inconclusive=Counter(), shards=nshards, coverage_extra={})
     failures = []
